@@ -548,7 +548,10 @@ def run_c14(ctx):
     summary, pv, mism = {}, [], []
     if not any("-BUILD-FAILED" in b for b in broken):
         shards, n = (8, 600) if ctx.tier == "quick" else (16, 20000)
-        cmds = ["%s utf16 %d %d" % (harness_bin("utf16"), ctx.seed * 1000 + k, n) for k in range(shards)]
+        # the harness evaluates the property (utf16/ucs2 vs utf8) itself; its cursor lines (hook export utf16_step on
+        # every offset of every slice) go through the driver, which compares them with the model Model/Utf16.v
+        cmds = ["set -o pipefail; ulimit -s 1000000; %s utf16 %d %d | %s utf16" % (harness_bin("utf16"), ctx.seed * 1000 + k, n, os.path.join(BUILD, "extract", "driver")) for k in range(shards)]
+        cursor_mism = []
         with concurrent.futures.ThreadPoolExecutor(max_workers=NCPU) as ex:
             for rc, out in ex.map(lambda c: sh(c, 900), cmds):
                 if rc != 0: broken.append("pipeline: utf16 harness rc=%d %s" % (rc, out[-300:]))
@@ -556,6 +559,8 @@ def run_c14(ctx):
                     if line.startswith("SUMMARY"):
                         for k, v in parse_kv(line).items(): summary[k] = summary.get(k, 0) + int(v)
                     elif line.startswith("PROPVIOL"): pv.append(line)
+                    elif line.startswith("MISMATCH"): cursor_mism.append(line)
+        if cursor_mism: broken.append("correspondence (UTF-16 cursor model): %d disagreements, first: %s" % (len(cursor_mism), cursor_mism[0][:200]))
         # model tie of the utf16 build (no byte literals, no prefilter in the backtracker)
         res, summ, mism, comp, rcs = exec_results("utf16", ctx.seed * 1000, 500 if ctx.tier == "quick" else 10000, 5, BUDGET, "RV_UTF16=1")
         if mism: broken.append("correspondence (utf16 build): %d disagreements, first: %s" % (len(mism), mism[0][:200]))
@@ -575,10 +580,11 @@ def run_c14(ctx):
         path = write_replay(ctx, "tie", dict(kind="broken-obligation", broken=broken, note="the utf16 build or its correspondence no longer checks; no violating input was found"))
         report_violation(ctx, path, no_input=True)
     cov = dict(programs=max(summary.get("cases", 0), 1), disagreements_checked=len(mism), evaluations=summary.get("runs", 0), distinct_nontrivial=summary.get("nontrivial", 0),
-               rule="generated patterns x texts: find_from on the string vs find_from_utf16 on its UTF-16 encoding (offsets translated, every boundary start), UCS-2 on BMP-only text, and arbitrary u16 slices with lone surrogates (no panic, ranges inside the slice); plus the S2-S5 model correspondence of the utf16 build",
-               samples=[dict(note="see rule"), dict(inconclusive=summary.get("inconclusive", 0))], obligations=1, discharged=0,
-               checker_cmd="cargo build --features utf16; rvharness utf16; rvharness exec | RV_UTF16=1 driver exec", trusted_base=TRUSTED_BASE)
-    write_evidence(ctx, "translation_validation", cov, ["the Utf16Input/Ucs2Input indexers are not modelled in Coq; this check evaluates the property on the implementation"])
+               rule="generated patterns x texts (and a fixed family of case-insensitive backreferences over fold partners): find_from on the string vs find_from_utf16 on its UTF-16 encoding (offsets translated, every boundary start), UCS-2 on BMP-only text, and arbitrary u16 slices with lone surrogates (no panic, ranges inside the slice); the cursor of both input types on every offset of every slice, both directions, against the model Utf16.v; plus the S2-S5 model correspondence of the utf16 build",
+               samples=[dict(note="see rule"), dict(inconclusive=summary.get("inconclusive", 0)), dict(cursor_steps_compared_with_model=summary.get("cursor_steps", 0))],
+               obligations=max(len(fr["theorems"]), 1), discharged=fr["discharged"] if fr["theorems"] else 0, theorems=fr["theorems"],
+               checker_cmd="cargo build --features utf16; rvharness utf16 | driver utf16; rvharness exec | RV_UTF16=1 driver exec; make theories/Properties/C14.vo", trusted_base=TRUSTED_BASE)
+    write_evidence(ctx, "translation_validation", cov, ["the cursor of Utf16Input/Ucs2Input is modelled (Model/Utf16.v) and proved to read what was encoded; that the engines run on it return the UTF-8 answers is evaluated on the implementation, not proved"])
     return 1 if ctx.violations else 0
 PROPS["C14"] = (run_c14, lambda ctx, path: run_c14(ctx))
 
